@@ -17,6 +17,10 @@ using namespace IMATH_NAMESPACE;
     WRAP void w_euler_to_xyzvec##S (const Vec3<T>* ijk, int o, Vec3<T>* r) { Euler<T> e (ijk->x, ijk->y, ijk->z, (typename Euler<T>::Order) o); *r = e.toXYZVector (); } \
     WRAP void w_euler_xyzlayout_ctor##S (const Vec3<T>* v, int o, Vec3<T>* ijk) { Euler<T> e (v->x, v->y, v->z, (typename Euler<T>::Order) o, Euler<T>::XYZLayout); *ijk = Vec3<T> (e.x, e.y, e.z); } \
     WRAP void w_euler_extract_m33_roundtrip##S (T x, T y, T z, int o, Matrix33<T>* r) { Matrix33<T> m = Euler<T> (x, y, z, (typename Euler<T>::Order) o).toMatrix33 (); Euler<T> f ((typename Euler<T>::Order) o); f.extract (m); *r = f.toMatrix33 (); } \
+    WRAP void w_euler_extract33_rt##S (const Matrix33<T>* m, int o, Matrix33<T>* r) { Euler<T> f ((typename Euler<T>::Order) o); f.extract (*m); *r = f.toMatrix33 (); } \
+    WRAP void w_euler_extract44_rt##S (const Matrix33<T>* m, int o, Matrix33<T>* r) { Euler<T> f ((typename Euler<T>::Order) o); f.extract (Matrix44<T> (*m, Vec3<T> (0, 0, 0))); *r = f.toMatrix33 (); } \
+    WRAP void w_euler_extract33_angles##S (const Matrix33<T>* m, int o, Vec3<T>* a) { Euler<T> f ((typename Euler<T>::Order) o); f.extract (*m); *a = Vec3<T> (f.x, f.y, f.z); } \
+    WRAP void w_euler_extract44_angles##S (const Matrix33<T>* m, int o, Vec3<T>* a) { Euler<T> f ((typename Euler<T>::Order) o); f.extract (Matrix44<T> (*m, Vec3<T> (0, 0, 0))); *a = Vec3<T> (f.x, f.y, f.z); } \
     WRAP void w_m44_seteuler##S (T x, T y, T z, Matrix44<T>* r) { Matrix44<T> m; m.setEulerAngles (Vec3<T> (x, y, z)); *r = m; }
 
 INST (float, f)
